@@ -36,10 +36,20 @@ def job(name, harness, N, **kw):
     return Job(name, 'src/logics/Logic.cc', 'Logic__protectName__std_string_R_bool', tier='R', header='contracts/C17/protect.h', harness=harness, enforce=False,
                pre_includes=('stubs/std_types.h',), opaque=('opensmt::Logic',), defines=('OSMT_N %d' % N,), default_unwind=128, gen_header=lexer_keywords,
                min_obligations=3, timeout=1800, object_bits=12, bounded_note=kw.pop('note'), **kw)
+def alphabet_job(N):
+    # longer names over a small alphabet that has one character of every class the quoting decision distinguishes: letter, digit, '-', '.', a character that is
+    # legal in a simple symbol ('!'), one that is not ('#'), a space and a byte >= 0x80
+    alpha = ["'a'", "'1'", "'-'", "'.'", "'!'", "'#'", "' '", "(char)-23", "0"]
+    cond = ' || '.join('buf[k] == %s' % c for c in alpha)
+    h = H_SYM.replace("for (int k = 0; k < OSMT_N; k++) __CPROVER_assume(buf[k] != '|' && buf[k] != '\\\\');", "for (int k = 0; k < OSMT_N; k++) __CPROVER_assume(%s);" % cond)
+    assert h != H_SYM
+    return job('protectName.alphabet.N%d' % N, h, N, note='exhaustive over all names of at most %d bytes over the alphabet {a 1 - . ! # space 0xE9}' % N, weight=10)
 def jobs(tier):
     N = 4 if tier == 'quick' else 5
+    if os.environ.get('C17_TRY_ALPHA'): return [alphabet_job(int(os.environ['C17_TRY_ALPHA']))]
     return [job('protectName.N%d' % N, H_SYM, N, note='exhaustive over all names of at most %d bytes without | and backslash' % N, weight=10),
-            job('protectName.keywords', H_KW, 4, note='every keyword rule of smt2newlexer.ll')]
+            job('protectName.keywords', H_KW, 4, note='every keyword rule of smt2newlexer.ll'),
+            alphabet_job(8 if tier == 'quick' else 12)]
 def info(tier, results):
     return {'level': 'other' if all(r['tier']=='S' or r.get('bounded_note') for r in results) else 'proof', 'trusted_base': ['clang 14 AST', 'osmt2c lowering', 'CBMC 6.11'],
             'assumptions': ['std::string / std::unordered_set behave as the stubs of contracts/C17/protect.h', 'the reference recogniser in protect.h is a faithful reading of smt2newlexer.ll (keywords are re-read from the file on every run)'], 'explanation': ''}
